@@ -137,6 +137,10 @@ type Event struct {
 	Text  string
 	Instr ssa.Instruction
 	Pol   bool // EvCond: which way
+	// EvCond: the value actually branched on (a boolean phi is resolved along the path) and the
+	// truth value it has on this path
+	Val    ssa.Value
+	ValPol bool
 }
 
 func (e Event) String() string {
@@ -610,6 +614,64 @@ func (pe *pathEnum) walkBlock(fn *ssa.Function, b *ssa.BasicBlock, blocks []*ssa
 		pe.emit(fn, blocks, evs, "panic")
 		return
 	case *ssa.If:
+		// a constant condition (a boolean parameter of an inlined helper bound to a literal)
+		if pol, isK := constCond(t.Cond); isK {
+			s := b.Succs[1]
+			if pol {
+				s = b.Succs[0]
+			}
+			if pe.opts.SkipEdge == nil || !pe.opts.SkipEdge(b, s) {
+				pe.walk(fn, s, blocks, evs, visits, cs, false)
+			}
+			return
+		}
+		// a comparison one of whose operands is a phi (the result variable of an inlined helper,
+		// an error assigned on several branches): compare the value the phi has on this path
+		if handled := pe.walkResolvedCmp(fn, b, t, blocks, evs, visits, cs); handled {
+			return
+		}
+		// a boolean phi used as the condition (short-circuit result, or the result variable of an
+		// inlined predicate) is resolved through the blocks this path came along
+		if rc, pol, ok := resolveCondOnPath(t.Cond, blocks); ok {
+			if c, isC := rc.(*ssa.Const); isC && c.Value != nil && c.Value.Kind() == constant.Bool {
+				taken := constant.BoolVal(c.Value) == pol
+				s := b.Succs[1]
+				if taken {
+					s = b.Succs[0]
+				}
+				if pe.opts.SkipEdge == nil || !pe.opts.SkipEdge(b, s) {
+					pe.walk(fn, s, blocks, evs, visits, cs, false)
+				}
+				return
+			}
+			// a non-constant edge value: branch on it instead of on the phi
+			canT, canF := true, true
+			if !pe.opts.NoPrune {
+				canT, canF = cs.feasible(rc)
+				if !pol {
+					canT, canF = canF, canT
+				}
+			}
+			for i, s := range b.Succs {
+				bpol := i == 0
+				if (bpol && !canT) || (!bpol && !canF) {
+					continue
+				}
+				if pe.opts.SkipEdge != nil && pe.opts.SkipEdge(b, s) {
+					continue
+				}
+				lit := Lit(rc, bpol == pol)
+				if !pe.opts.NoPrune && cs.lits[NegLit(lit)] {
+					continue
+				}
+				ncs := cs.clone()
+				ncs.lits[lit] = true
+				ncs.assume(rc, bpol == pol)
+				ne := append(evs[:len(evs):len(evs)], Event{Kind: EvCond, Text: lit, Instr: t, Pol: bpol, Val: rc, ValPol: bpol == pol})
+				pe.walk(fn, s, blocks, ne, visits, ncs, false)
+			}
+			return
+		}
 		if call, neg := predCall(t.Cond); call != nil {
 			if pps, ok := predPaths(call, cs.eq); ok {
 				pe.walkPred(fn, b, t, call, neg, pps, blocks, evs, visits, cs)
@@ -635,7 +697,7 @@ func (pe *pathEnum) walkBlock(fn *ssa.Function, b *ssa.BasicBlock, blocks []*ssa
 			ncs := cs.clone()
 			ncs.lits[lit] = true
 			ncs.assume(t.Cond, pol)
-			ne := append(evs[:len(evs):len(evs)], Event{Kind: EvCond, Text: Lit(t.Cond, pol), Instr: t, Pol: pol})
+			ne := append(evs[:len(evs):len(evs)], Event{Kind: EvCond, Text: Lit(t.Cond, pol), Instr: t, Pol: pol, Val: t.Cond, ValPol: pol})
 			pe.walk(fn, s, blocks, ne, visits, ncs, false)
 		}
 		return
@@ -727,10 +789,198 @@ func (pe *pathEnum) walkPred(fn *ssa.Function, b *ssa.BasicBlock, t *ssa.If, cal
 			}
 			n2 := ncs.clone()
 			n2.lits[lit] = true
-			ne2 := append(ne[:len(ne):len(ne)], Event{Kind: EvCond, Text: lit, Instr: t, Pol: pol})
+			ne2 := append(ne[:len(ne):len(ne)], Event{Kind: EvCond, Text: lit, Instr: t, Pol: pol, Val: pp.ret, ValPol: want})
 			pe.walk(fn, s, blocks, ne2, visits, n2, false)
 		}
 	}
+}
+
+// resolveValOnPath follows phis through the blocks the path came along.
+func resolveValOnPath(v ssa.Value, blocks []*ssa.BasicBlock) (ssa.Value, bool) {
+	changed := false
+	for i := 0; i < 16; i++ {
+		phi, ok := v.(*ssa.Phi)
+		if !ok {
+			break
+		}
+		pos := -1
+		for bi := len(blocks) - 1; bi >= 1; bi-- {
+			if blocks[bi] == phi.Block() {
+				pos = bi
+				break
+			}
+		}
+		if pos < 1 {
+			break
+		}
+		idx, n := -1, 0
+		for k, pb := range phi.Block().Preds {
+			if pb == blocks[pos-1] {
+				idx = k
+				n++
+			}
+		}
+		if idx < 0 || n != 1 {
+			break
+		}
+		v = phi.Edges[idx]
+		changed = true
+	}
+	return v, changed
+}
+
+// definitelyNonNil: the value cannot be nil (a freshly built error, an allocation, a function).
+func definitelyNonNil(v ssa.Value) bool {
+	switch x := v.(type) {
+	case *ssa.Call:
+		switch calleeName(x) {
+		case "fmt.Errorf", "errors.New":
+			return true
+		}
+	case *ssa.Alloc, *ssa.MakeMap, *ssa.MakeSlice, *ssa.MakeChan, *ssa.MakeClosure, *ssa.Function:
+		return true
+	case *ssa.MakeInterface:
+		if _, isPtr := x.X.Type().Underlying().(*types.Pointer); !isPtr {
+			return true
+		}
+		return definitelyNonNil(x.X)
+	case *ssa.ChangeInterface:
+		return definitelyNonNil(x.X)
+	}
+	return false
+}
+
+// walkResolvedCmp handles `if x == y` / `if x != y` where x or y is a phi determined by the
+// path: the comparison is rendered (and, against nil, decided) with the value on this path.
+func (pe *pathEnum) walkResolvedCmp(fn *ssa.Function, b *ssa.BasicBlock, t *ssa.If, blocks []*ssa.BasicBlock, evs []Event,
+	visits map[*ssa.BasicBlock]int, cs *cstate) bool {
+	cond := t.Cond
+	neg := false
+	for {
+		if u, ok := cond.(*ssa.UnOp); ok && u.Op == token.NOT {
+			cond = u.X
+			neg = !neg
+			continue
+		}
+		break
+	}
+	bo, ok := cond.(*ssa.BinOp)
+	if !ok || (bo.Op != token.EQL && bo.Op != token.NEQ) {
+		return false
+	}
+	rx, cx := resolveValOnPath(bo.X, blocks)
+	ry, cy := resolveValOnPath(bo.Y, blocks)
+	if !cx && !cy {
+		return false
+	}
+	// decided against nil?
+	decided, truth := false, false
+	switch {
+	case isNilConst(ry) && definitelyNonNil(rx), isNilConst(rx) && definitelyNonNil(ry):
+		decided, truth = true, bo.Op == token.NEQ
+	case isNilConst(rx) && isNilConst(ry):
+		decided, truth = true, bo.Op == token.EQL
+	}
+	var undo []func()
+	if cx {
+		if _, had := termAlias[bo.X]; !had {
+			undo = append(undo, alias(bo.X, Term(rx)))
+		}
+	}
+	if cy {
+		if _, had := termAlias[bo.Y]; !had {
+			undo = append(undo, alias(bo.Y, Term(ry)))
+		}
+	}
+	litT, litF := Lit(t.Cond, true), Lit(t.Cond, false)
+	for _, u := range undo {
+		u()
+	}
+	for i, s := range b.Succs {
+		pol := i == 0
+		if decided && (truth != neg) != pol {
+			continue
+		}
+		if pe.opts.SkipEdge != nil && pe.opts.SkipEdge(b, s) {
+			continue
+		}
+		lit := litF
+		if pol {
+			lit = litT
+		}
+		if !decided && !pe.opts.NoPrune && cs.lits[NegLit(lit)] {
+			continue
+		}
+		ncs := cs.clone()
+		ncs.lits[lit] = true
+		ne := append(evs[:len(evs):len(evs)], Event{Kind: EvCond, Text: lit, Instr: t, Pol: pol, Val: t.Cond, ValPol: pol})
+		pe.walk(fn, s, blocks, ne, visits, ncs, false)
+	}
+	return true
+}
+
+// constCond: cond is (a negation of) a boolean constant.
+func constCond(cond ssa.Value) (bool, bool) {
+	pol := true
+	for {
+		if u, ok := cond.(*ssa.UnOp); ok && u.Op == token.NOT {
+			cond = u.X
+			pol = !pol
+			continue
+		}
+		break
+	}
+	if c, ok := cond.(*ssa.Const); ok && c.Value != nil && c.Value.Kind() == constant.Bool {
+		return constant.BoolVal(c.Value) == pol, true
+	}
+	return false, false
+}
+
+// resolveCondOnPath: cond is (a negation of) a boolean phi whose incoming edge is determined by
+// the blocks of the path so far; returns the edge value and the polarity under which cond is
+// true when that value is true.
+func resolveCondOnPath(cond ssa.Value, blocks []*ssa.BasicBlock) (ssa.Value, bool, bool) {
+	pol := true
+	v := cond
+	changed := false
+	for i := 0; i < 16; i++ {
+		if u, ok := v.(*ssa.UnOp); ok && u.Op == token.NOT {
+			v = u.X
+			pol = !pol
+			continue
+		}
+		phi, ok := v.(*ssa.Phi)
+		if !ok {
+			break
+		}
+		pos := -1
+		for bi := len(blocks) - 1; bi >= 1; bi-- {
+			if blocks[bi] == phi.Block() {
+				pos = bi
+				break
+			}
+		}
+		if pos < 1 {
+			break
+		}
+		idx := -1
+		n := 0
+		for k, pb := range phi.Block().Preds {
+			if pb == blocks[pos-1] {
+				idx = k
+				n++
+			}
+		}
+		if idx < 0 || n != 1 {
+			break
+		}
+		v = phi.Edges[idx]
+		changed = true
+	}
+	if !changed {
+		return nil, false, false
+	}
+	return v, pol, true
 }
 
 // eqConstraint decomposes `x == k` / `x != k` under polarity pol.
